@@ -114,6 +114,16 @@ theorem parse_minimal_parens_located (e : RExpr) (hwf : RExpr.WF specTables e) (
 sub-expression at any operand position of `e` in `parse_minimal_parens`, and it does not change the tree. -/
 theorem paren_operand_accepted (e : RExpr) : (RExpr.paren e).embed = e.embed := rfl
 
+/-- "A negative literal or negated operand may follow any operator": after *every* binary operator of the reference
+grammar (symbolic, IS, IS NOT, AND, OR) the minimal printing of `l o (- r)` puts the minus sign directly after the
+operator, without parentheses — and by `parse_minimal_parens` that token sequence is read as `l o (- r)`. -/
+theorem neg_after_operator (o : BOp) (l r : RExpr)
+    (h : ∀ s, o = .sym s → s ≠ .single '.' ∧ (lookupOp specTables.binary s).isSome) :
+    RExpr.minimal (.bin o l (.neg r)) =
+      RExpr.pr specTables (tokPrec specTables o.tok) l ++ [o.tok, .op (.single '-')] ++
+        RExpr.pr specTables (RExpr.prefixCtx negLevel r) r :=
+  minimal_neg_operand o l r h
+
 /-- what may follow an expression: any token that is not `(`, not an operator character and has no precedence
 (`End`, `FROM`, `AS`, `,`, `)`, `]`, `THEN`, …) -/
 theorem stops_of_plain_token {s : PSt} (h1 : s.cur.tok ≠ .lp) (h2 : ∀ o, s.cur.tok ≠ .op o)
